@@ -214,8 +214,25 @@ MORE3 = {
     'C14': " VAL: the keep-flag of the validator changes only in the CastError handler and only when the policy answers false; the row is "
            "yielded exactly when the flag still has its first value (decided on paths, whatever the flag's polarity).",
 }
+MORE4 = {
+    'C01': " R1c: Flow.__init__ keeps all its links and the checkpoint fold hands every link on.",
+    'C02': " The concatenate clauses (CAT: every resource of the run rebuilt row by row, one descriptor for the run) are run here too.",
+    'C03': " R16j: the object json.dumps is given for a row is the transformed row itself (GeoJSON: its entries as properties).",
+    'C04': " R14x: no __exit__ method defined in the library returns a value that may be true.",
+    'C05': " R16j as in C03. R6d: a recording observer runs the generator it handed downstream to its end before it goes on (reported as "
+           "two known findings: a consumer that stops early leaves dumpers and checkpoints with a part of the stream).",
+    'C06': " Rows held back in a container inside the row loop are flushed on a test of the container's size.",
+    'C07': " R34 (c): an attribute that runs rebind is not read by a run before that run has bound it; the Flow class is a subject of R34.",
+    'C08': " The generic rules (R34 in particular) are run on dataflows/base/flow.py as well: the checkpoint is handed its links by "
+           "Flow._preprocess_chain on every run.",
+    'C09': " WRC: in FileDumper.rows_processor a row is yielded (and so counted) iff write_row was called for it outside any try.",
+    'C10': " R7e: update_resource / update_schema / set_primary_key edit every resource the selector matched. R29d: what they store is "
+           "copied per resource.",
+    'C12': " KEYP: the key calculator stores into, and calls mutators on, its own locals only.",
+    'C17': " KEY-DERIVATION: the template is expanded on the full match that selected the field.",
+}
 for _pid, _c in CHECKS.items():
-    _c['text'] = _c['text'] + MORE.get(_pid, '') + MORE2.get(_pid, '') + MORE3.get(_pid, '') + GEN
+    _c['text'] = _c['text'] + MORE.get(_pid, '') + MORE2.get(_pid, '') + MORE3.get(_pid, '') + MORE4.get(_pid, '') + GEN
     if 'generic defect-pattern rules' not in _c['technique']:
         _c['technique'] = _c['technique'] + '; generic defect-pattern rules on the anchored files (shared class state, late-binding closures, groupby runs, run idempotence)'
 
